@@ -363,12 +363,20 @@ def native_build(ob, init_c, workdir, asan=False):
         r = sh(['objcopy', '--weaken-symbols=' + sf, lib2])
         if r['rc'] != 0: return None, 'objcopy failed ' + r['err']
         lib = lib2
+    # sources listed with their own -D options (second configuration of the same file, externals renamed: C19)
+    # are compiled natively with those options and linked next to the library
+    for i, srcspec in enumerate(ob.srcs):
+        if isinstance(srcspec, (tuple, list)) and srcspec[1].get('defs'):
+            o = os.path.join(workdir, 'cfg%d.o' % i)
+            r = sh(cc + fl + ['-D' + d for d in srcspec[1]['defs']] + ['-c', os.path.join(REPO, srcspec[0]), '-o', o], timeout=300)
+            if r['rc'] != 0: return None, 'native compile of configured source failed: ' + r['err'][-800:]
+            stub_objs.append(o)
     main_c = os.path.join(workdir, 'vp_main.c')
     with open(main_c, 'w') as f:
         f.write('extern void %s(void);\n#include <stdio.h>\nint main(void){ %s(); printf("VP_NOT_REPRODUCED\\n"); return 0; }\n' % (ob.entry, ob.entry))
     exe = os.path.join(workdir, 'replay.exe')
     r = sh(cc + hfl + ['-include', hdr, os.path.join(VERIF, ob.harness)] +
-           [os.path.join(VERIF, e) for e in ex] + [main_c] + stub_objs + ['-Wl,--whole-archive'] * 0 + [lib, '-o', exe, '-lpthread', '-ldl'], timeout=300)
+           [os.path.join(VERIF, e) for e in ex] + [main_c] + stub_objs + ['-Wl,--whole-archive'] * 0 + [lib, '-o', exe, '-lpthread', '-ldl', '-Wl,--unresolved-symbols=ignore-all', '-no-pie'], timeout=300)
     if r['rc'] != 0: return None, 'native link failed: ' + r['err'][-1500:]
     return exe, None
 
